@@ -24,6 +24,9 @@ def sponge_cases(thorough):
                 for l2 in sorted(set([0, 1, 7, 8, rate - b - 1, rate - b, rate - b + 1, rate, rate + 1, 2 * rate, 2 * rate + 1, 3 * rate - b])):
                     if l2 >= 0:
                         cs.append(Case('split_a%d_%d_%d' % (algo, l1, l2), 'hash', 'zzC13_sponge_split', [algo, l1, l2]))
+        for off in (range(1, 8) if thorough else (1, 4, 7)):
+            for (l1, l2) in ((0, rate), (0, 2 * rate + 3), (3, rate + 5), (rate, rate)):
+                cs.append(Case('misaligned_a%d_o%d_%d_%d' % (algo, off, l1, l2), 'hash', 'zzC13_sponge_misaligned', [algo, off, l1, l2]))
         l0s = [0, 1, rate - 1, rate, rate + 5]
         lxs = [0, 1, rate - 1, rate, rate + 1, 2 * rate]
         for l0, lx in itertools.product(l0s, lxs):
